@@ -49,7 +49,7 @@ package http2
 //@   requires p != nil && (forall i int :: 0 <= i && i < len(deref(p)) ==> deref(p)[i] != nil && len(deref(p)[i].s) == 0)
 //@   assigns deref(p)
 //@   ensures [C20:fresh-or-recycled-empty-queue] q != nil && len(q.s) == 0
-//@   ensures len(old(deref(p))) == 0 ==> fresh(q) && deref(p) == old(deref(p))
+//@   ensures len(old(deref(p))) == 0 ==> fresh(q) && deref(p) == old(deref(p)) && !q.inRing
 //@   ensures len(old(deref(p))) > 0 ==> q == old(deref(p))[len(old(deref(p)))-1] && deref(p) == old(deref(p))[:len(old(deref(p)))-1]
 
 //@ -- schedulers -----------------------------------------------------------------------------------------------
@@ -91,7 +91,9 @@ package http2
 //@ -- ghost: membership in the ring. The invariant below is the local shape of a doubly linked ring, closed under
 //@ -- next/prev; that the ring is ONE cycle containing exactly the map's queues is covered by the bounded stand-in.
 //@ ghostfield writeQueue.inRing bool
-//@ pure func ringOK(ws *roundRobinWriteScheduler) bool = (ws.head != nil ==> ws.head.inRing) && (forall q *writeQueue :: q.inRing ==> q != nil && q != ws.control && q.next != nil && q.prev != nil && q.next.inRing && q.prev.inRing && q.next.prev == q && q.prev.next == q && wfQueue(q)) && (forall id uint32 :: mapHas(ws.streams, id) && mapGet(ws.streams, id) != nil ==> mapGet(ws.streams, id).inRing) && (forall i int :: 0 <= i && i < len(ws.queuePool) ==> !ws.queuePool[i].inRing)
+//@ -- ghost: the stream id a ring member is registered under (makes the map injective on its non-nil values)
+//@ ghostfield writeQueue.sid uint32
+//@ pure func ringOK(ws *roundRobinWriteScheduler) bool = (ws.head != nil ==> ws.head.inRing) && (forall q *writeQueue :: q.inRing ==> q != nil && q != ws.control && q.next != nil && q.prev != nil && q.next.inRing && q.prev.inRing && q.next.prev == q && q.prev.next == q && wfQueue(q)) && (forall id uint32 :: mapHas(ws.streams, id) && mapGet(ws.streams, id) != nil ==> mapGet(ws.streams, id).inRing && mapGet(ws.streams, id).sid == id) && (forall i int :: 0 <= i && i < len(ws.queuePool) ==> !ws.queuePool[i].inRing && ws.queuePool[i] != ws.control) && (forall i int, j int :: 0 <= i && i < j && j < len(ws.queuePool) ==> ws.queuePool[i] != ws.queuePool[j])
 //@ pure func rrInv(ws *roundRobinWriteScheduler) bool = ws.streams != nil && wfQueue(ws.control) && !ws.control.inRing && poolOK(ws.queuePool) && ringOK(ws)
 
 //@ func (*roundRobinWriteScheduler).OpenStream :: ws, streamID, options
@@ -99,6 +101,7 @@ package http2
 //@   requires ws != nil && rrInv(ws)
 //@   requires [C20:stream-not-open-twice] !mapHas(ws.streams, streamID) || mapGet(ws.streams, streamID) == nil
 //@   ghostset q.inRing = true
+//@   ghostset q.sid = streamID
 //@   ensures [C20:ring-shape-kept] rrInv(ws)
 //@   ensures [C20:new-stream-has-empty-queue-in-ring] mapHas(ws.streams, streamID) && mapGet(ws.streams, streamID) != nil && mapGet(ws.streams, streamID).inRing && len(mapGet(ws.streams, streamID).s) == 0
 //@   ensures [C20:other-streams-untouched] forall id uint32 :: id != streamID ==> (mapHas(ws.streams, id) <==> old(mapHas(ws.streams, id))) && mapGet(ws.streams, id) == old(mapGet(ws.streams, id))
